@@ -12,17 +12,24 @@ crate and the grammar read from asm.pest):
   `pushN`, and the `push` alternative does not match `push0`;
 * `C03_offsets`: reported offsets are the prefix sums of instruction sizes
   (`Props/C04.lean`).
-The end-to-end statement (listing text → pest interpreter → parse → assemble =
-original bytes, for every byte string over defined opcodes) is checked by the
-correspondence run through the real `Disassembler` and `Ingest` (every
-single-instruction program exhaustively, random streams), and is NOT a theorem:
-it needs a characterisation of the full interpreter on statement lines
-(`C03_partial`).
+* `C03_parse`, `C03_roundtrip`: the END-TO-END statement, for every byte string
+  of complete instructions over defined Cancun opcodes: the listing text
+  (`Listing.listing`: `mnemonic` or `mnemonic 0x<hex>` per line), run through the
+  full pest interpreter over the regenerated grammar (`Pest.parse`), the pair-tree
+  walk (`parseAsm`), `Ingest::preprocess` and `Assembler::assemble`, gives back
+  exactly the original bytes.  The interpreter part (`Listing.parse_listing`) is
+  proved with a three-valued window interpreter (`Asm/PestK.lean`) that is sound
+  for `Pest.matchE` (`Asm/PestLogic.lean`) and is evaluated by the kernel once per
+  table row on a window of character classes (`Asm/ListingTable.lean`).
 -/
 import EtkVerif.Asm.PegLite
 import EtkVerif.Gen.Grammar
 import EtkVerif.Gen.OpTable
 import EtkVerif.Ops.Lemmas
+import EtkVerif.Asm.ListingPest
+import EtkVerif.Asm.ListingNodes
+import EtkVerif.Asm.ListingAsm
+import EtkVerif.Asm.Ingest
 namespace EtkVerif.C03
 open Pest Ops
 
@@ -55,5 +62,62 @@ def opLiterals : PE → List (List Nat)
 
 theorem C03_grammar_subset_table :
     (opLiterals (ruleBody Gen.R_op)).all (fun m => (parse Gen.cancun m).isSome) = true := by decide +kernel
+
+/-! ### the end-to-end round trip -/
+
+open Asm Asm.Listing in
+/-- the listing of any valid instruction list parses (full interpreter + pair-tree
+walk) to one `Op` node per instruction: opcode byte, and for pushN the value of
+the immediate -/
+theorem C03_parse (is : List Disasm.Instr) (hv : ∀ i ∈ is, Valid i) :
+    parseAsm (listing is) = .ok (is.map nodeOf) := by
+  unfold parseAsm
+  rw [parse_listing is hv]
+  exact nodes_listing is hv
+
+open Asm Asm.Listing in
+theorem nodesLoop_listing (fs : FS) (cwd : PathC) (prog : Program) (tr : List Event) :
+    ∀ (is : List Disasm.Instr) (fuel : Nat), is.length + 1 ≤ fuel →
+      nodesLoop fs cwd fuel prog (is.map nodeOf) tr = .ok (is.map rawOf, tr) := by
+  intro is
+  induction is with
+  | nil => intro fuel hf; cases fuel with
+    | zero => omega
+    | succ f => simp [nodesLoop]
+  | cons i is ih =>
+    intro fuel hf
+    cases fuel with
+    | zero => omega
+    | succ f =>
+      have h := ih f (by simp at hf; omega)
+      simp only [List.map_cons, nodesLoop, nodeOf, h, rawOf]
+      rfl
+
+open Asm Asm.Listing in
+/-- **Round trip.** For every byte string whose linear sweep consists of complete
+instructions with defined opcodes: `Ingest` run on the listing text reads no file
+(the event trace is unchanged), hands the assembler one raw op per instruction,
+and the assembler returns exactly the original bytes.  (`fuel` only has to exceed
+the number of instructions; `rnd`, the file system, the program context are arbitrary.) -/
+theorem C03_roundtrip (fs : FS) (cwd : PathC) (prog : Program) (tr : List Event) (rnd : Nat → Nat)
+    (bytes : List Nat) (hb : ∀ b ∈ bytes, b < 256) (items : List Disasm.Item) (off : Nat)
+    (hd : Disasm.decodeAll Gen.cancun bytes = (items, (off, [])))
+    (hdef : ∀ it ∈ items, Ops.isUndefRow (Ops.rowOf Gen.cancun it.2.op) = false)
+    (fuel : Nat) (hf : items.length + 2 ≤ fuel) :
+    preprocess fs cwd fuel prog (listing (items.map (·.2))) tr = .ok ((items.map (·.2)).map rawOf, tr) ∧
+    assemble rnd fuel {} (RawOps.ofList ((items.map (·.2)).map rawOf)) = .ok (bytes, 0) := by
+  obtain ⟨hv, hcat⟩ := decodeAll_valid bytes hb items off hd hdef
+  constructor
+  · cases fuel with
+    | zero => omega
+    | succ f =>
+      simp only [preprocess, C03_parse _ hv]
+      exact nodesLoop_listing fs cwd prog tr _ f (by simp; omega)
+  · have := assemble_listing rnd fuel (items.map (·.2)) hv (by simpa using hf)
+    rw [this, hcat]
+
+-- non-vacuity: a concrete byte string (push1 00; stop; push2 00ff; push0; mstore8) meets the hypotheses
+example : Disasm.decodeAll Gen.cancun [0x60, 0, 0, 0x61, 0, 255, 0x5f, 0x53]
+    = ([(0, ⟨0x60, [0]⟩), (2, ⟨0, []⟩), (3, ⟨0x61, [0, 255]⟩), (6, ⟨0x5f, []⟩), (7, ⟨0x53, []⟩)], (8, [])) := by decide
 
 end EtkVerif.C03
